@@ -47,7 +47,9 @@ ASSUMPTIONS = [
 ]
 NSHARDS = {"quick": 8, "thorough": 16}
 TIMEOUT_S = {"quick": 240, "thorough": 1500}
-REQUIRE = {"twin_cases": 300, "twin_memos_delivered": 700, "twin_bursts_with_two_completions": 100,
+PEAK_COUNTERS = ("peak_memos_in_reassembly",)
+REQUIRE = {"rx_own_size_smaller_than_gram_memos_delivered": 300, "peak_memos_in_reassembly": 300,
+           "many_inflight_cases": 40, "many_inflight_memos_delivered": 5000, "twin_cases": 300, "twin_memos_delivered": 700, "twin_bursts_with_two_completions": 100,
            "deliveries_fed": 5000, "memos_delivered_exactly_once": 1000, "memos_withheld_never_delivered": 300,
            "service_points": 3000, "straddled_gram_borders": 200, "schedule_classes": 8, "signed_grams_verified": 500}
 EXHAUSTIVE = {
@@ -239,6 +241,41 @@ def cases(tier, seed, shard, nshards):
                                    "mix": "roundrobin", "nbytes": nbytes if nbytes else 24,
                                    "signer": 1 if signed else None, "withhold": [k - 1, n - 1]}
                         i += 1
+    # ---- 2d. sender and receiver configured with different gram sizes (a peer's .size is its own TRANSMIT size) ---
+    for code in ms.ZERO_CODES:
+        signed = code in ms.AUTH_ZERO
+        for curt in (False, True):
+            for tx_size, rx_size in ((400, 250), (1000, 300), (1240, 548), (2000, 1), (400, None), (250, 400),
+                                     (None, 300)):
+                for cls in ("inorder", "zeroth-first", "dup-before"):
+                    if i % nshards == shard:
+                        n = 2 if tx_size is None else 3
+                        rng = random.Random(f"{seed}:C20:rxsize:{code}:{curt}:{tx_size}:{rx_size}:{cls}")
+                        ev, _ = build_schedule("zeroth-first-dup-before" if cls == "dup-before" else cls, n, rng)
+                        yield {"kind": "rxsize", "class": cls, "code": code, "curt": curt, "size": tx_size,
+                               "rx_size": rx_size, "rx_authic": signed, "api": "all", "batch": 1,
+                               "memos": [memo_spec("rs", n, code, curt, tx_size, "srcR", 3 if signed else None,
+                                                   rng.randrange(1 << 30), slack=2)],
+                               "schedule": [[0, g] for g in ev]}
+                    i += 1
+    # ---- 2e. many memos being reassembled at once ------------------------------------------------------
+    for code in (["bAAA", "bAAC"] if quick else ms.ZERO_CODES):
+        signed = code in ms.AUTH_ZERO
+        for curt in (False, True):
+            size = working_size(code, curt) + 11       # room for a unique tag even in a one-gram memo
+            for count in (100, 150, 300):
+                for n in (1, 3):
+                    for pattern in ("burst", "roundrobin-each", "roundrobin-25"):
+                        if n == 1 and pattern != "burst":
+                            continue
+                        if pattern == "roundrobin-each" and count > 150 and quick:
+                            continue
+                        if i % nshards == shard:
+                            yield {"kind": "many", "class": "many", "code": code, "curt": curt, "size": size,
+                                   "rx_authic": signed, "count": count, "n": n, "pattern": pattern,
+                                   "nbytes": ms.nbytes_for(n, code, curt, size, 1) or 24,
+                                   "signer": 4 if signed else None}
+                        i += 1
     # ---- 3. random schedules ------------------------------------------------------------------
     rng = random.Random(f"{seed}:C20:{shard}")
     nrand = (3200 if quick else 120000) // nshards
@@ -288,6 +325,7 @@ def cases(tier, seed, shard, nshards):
             per.append(ev)
         schedule = interleave(per, rng)
         yield {"kind": "rand", "class": cls, "code": code, "curt": curt, "size": size,
+               "rx_size": rng.choice([None, None, 1, 64, 200, 300]),
                "rx_authic": signed and rng.random() < 0.7, "api": rng.choice(["all", "all", "once"]),
                "batch": rng.choice([1, 1, 2, 3, "end"]), "memos": memos, "schedule": schedule}
 
@@ -430,9 +468,114 @@ def run_twins(case, ctx):
     ctx.nontrivial(["twins", code, curt, n, k, case["mix"], case["batch"], case["api"], case["withhold"]])
 
 
+def run_many(case, ctx):
+    """100-300 distinct memos being reassembled at the same time: a burst that is serviced once, or round-robin
+    interleaving of multi-gram memos.  Ledger as always: every memo whose grams were all handed over is delivered
+    exactly once with its own text, source and signer."""
+    ms.reset_mids()
+    code, curt, size, count, n = case["code"], case["curt"], case["size"], case["count"], case["n"]
+    signed = code in ms.AUTH_ZERO
+    ctx.seen("schedule_classes", "many")
+    vid = keep = None
+    if signed:
+        vid, keyage = ms.signer(case["signer"])
+        keep = {vid: keyage}
+    tx = ms.new_tx(code, curt, size, vid=vid, keep=keep)
+    texts, grams = [], []
+    rng = random.Random(count * 7 + n)
+    try:
+        for m in range(count):
+            t = ms.make_text(f"{m:x}", case["nbytes"], rng)
+            tx.memoit(t, "rx", vid)
+            tx.serviceAllTx()
+            texts.append(t)
+            grams.append([g for g, _d in tx.sent])
+            tx.sent.clear()
+    except Exception as ex:
+        ctx.violation(_tx_key(case, ex, case["nbytes"]), f"sender could not segment memo: {ex!r}")
+        return
+    index = {t: m for m, t in enumerate(texts)}
+    if len(index) != count:
+        raise AssertionError("harness: memo texts not unique")
+    if case["pattern"] == "burst":
+        events = [(m, g) for m in range(count) for g in range(len(grams[m]))]
+        batch = len(events)
+    else:
+        width = max(len(gs) for gs in grams)
+        events = [(m, g) for g in range(width) for m in range(count) if g < len(grams[m])]
+        batch = 1 if case["pattern"] == "roundrobin-each" else 25
+    rx = ms.new_rx(case["rx_authic"], ms.keep_of(range(6)) if signed else None)
+    fed = [set() for _ in range(count)]
+    delivered = [0] * count
+    seen = 0
+    trace = [["pattern", case["pattern"], count, n]]
+
+    def service():
+        nonlocal seen
+        rx.serviceReceives()                    # the three public steps serviceAllRx() is made of,
+        ctx.peak("peak_memos_in_reassembly", len(rx.rxgs))   # called one by one to observe the peak in between
+        rx.serviceRxGrams()
+        rx.serviceRxMemos()
+        ctx.count("service_points")
+        box = rx.inbox
+        while seen < len(box):
+            text, src, v = box[seen]
+            seen += 1
+            m = index.get(text)
+            if m is None:
+                ctx.violation("corrupt-text:other", f"delivered a text no sender sent: {text[:60]!r}", trace=trace)
+                return False
+            if src != f"src{m % 5}" or (signed and v != vid):
+                ctx.violation("src-mismatch" if src != f"src{m % 5}" else "vid-mismatch",
+                              f"memo {m} delivered with src={src!r} vid={v!r}", trace=trace)
+                return False
+            delivered[m] += 1
+            if len(fed[m]) != len(grams[m]):
+                ctx.violation("delivered-incomplete", f"memo {m} delivered before all its grams were handed over",
+                              trace=trace)
+                return False
+            if delivered[m] > 1:
+                ctx.violation("delivered-twice:without-full-replay", f"memo {m} delivered twice", trace=trace)
+                return False
+        return True
+
+    try:
+        for step, (m, g) in enumerate(events, 1):
+            fed[m].add(g)
+            rx.wire.append((grams[m][g], f"src{m % 5}", (m, g, step)))
+            ctx.count("deliveries_fed")
+            if step % batch == 0 and not service():
+                return
+        for _ in range(2):
+            if not service():
+                return
+        lost = [m for m in range(count) if delivered[m] == 0]
+        if lost:
+            ok = {(t[0], t[1]) for t, o, _n in rx.picklog if o == "ok"}
+            zeroth_ok = all((m, 0) in ok for m in lost)
+            # the zeroth gram was accepted (count, source, signer recorded) and no gram is missing, yet the memo never
+            # completed: its reassembly state was discarded before it could be fused
+            ctx.violation("lost:reassembly-state-discarded-before-fuse" if zeroth_ok else "lost:genuine-gram-rejected:many",
+                          f"{len(lost)} of {count} memos ({n} gram(s) each, code={code} curt={curt}, pattern "
+                          f"{case['pattern']}) were never delivered although every gram was handed over once; "
+                          f"{'pick accepted the zeroth gram of each of them' if zeroth_ok else 'pick rejected a zeroth gram'}; "
+                          f"first lost memos: {lost[:8]}; memos still in rxgs: {len(rx.rxgs)}", trace=trace)
+            return
+    except Exception as ex:
+        ctx.violation(ms.escape_key(ex, "rx-escape"), f"receive path raised on genuine grams: {ex!r}", trace=trace)
+        return
+    finally:
+        rx.close()
+    ctx.count("many_inflight_cases")
+    ctx.count("many_inflight_memos_delivered", count)
+    ctx.nontrivial(["many", code, curt, count, n, case["pattern"]])
+
+
 def run_case(case, ctx):
     if case["kind"] == "twins":
         return run_twins(case, ctx)
+    if case["kind"] == "many":
+        return run_many(case, ctx)
     ms.reset_mids()
     code, curt, size = case["code"], case["curt"], case["size"]
     signed = code in ms.AUTH_ZERO
@@ -476,7 +619,8 @@ def run_case(case, ctx):
 
     # ---- receiver side -----------------------------------------------------------------------
     keep = ms.keep_of(range(6)) if signed else None
-    rx = ms.new_rx(case["rx_authic"], keep)
+    rx = ms.new_rx(case["rx_authic"], keep, case.get("rx_size"))
+    rx_smaller = any(len(g) > rx.size for gs in grams for g in gs)
     fed = [set() for _ in memos]            # distinct grams handed over so far, per memo
     fed_after_complete = [None for _ in memos]  # grams handed over again after every gram had been handed over once
     seen_counts = [0 for _ in memos]
@@ -555,6 +699,8 @@ def run_case(case, ctx):
                 complete = len(fed[mi]) == len(grams[mi])
                 if complete and c == 1:
                     ctx.count("memos_delivered_exactly_once")
+                    if rx_smaller:
+                        ctx.count("rx_own_size_smaller_than_gram_memos_delivered")
                 elif not complete and c == 0:
                     ctx.count("memos_withheld_never_delivered")
                 elif complete and c == 0:
